@@ -112,7 +112,10 @@ type Case struct {
 	// Resched: after the job is finished, schedule the same name again.
 	Resched bool     `json:"resched"`
 	Recycle *Recycle `json:"recycle,omitempty"`
-	Reps    int      `json:"reps"`
+	// Far, Dup: further program shapes, see shapes_test.go.
+	Far  *Far `json:"far,omitempty"`
+	Dup  *Dup `json:"dup,omitempty"`
+	Reps int  `json:"reps"`
 }
 
 func mustJSON(v any) []byte {
@@ -170,6 +173,18 @@ func genCase(t *rapid.T, mode string) Case {
 	c.Periodic = rapid.IntRange(0, 9).Draw(t, "periodic") < 3
 	c.JobDurUs = rapid.SampledFrom([]int64{0, 0, 0, 100, 500, 1500}).Draw(t, "jobDur")
 	c.Resched = rapid.Bool().Draw(t, "resched")
+	switch rapid.SampledFrom([]string{"", "", "", "", "", "", "far", "dup", "", "", "", ""}).Draw(t, "shape") {
+	case "far":
+		genFar(t, &c)
+		c.SyncTimer = rapid.Bool().Draw(t, "syncTimer")
+		return c
+	case "dup":
+		if mode == "M2" {
+			genDup(t, &c)
+			c.SyncTimer = rapid.Bool().Draw(t, "syncTimer")
+			return c
+		}
+	}
 	if rapid.SampledFrom([]bool{false, false, false, false, true, false, false}).Draw(t, "recycle") {
 		// cancel + immediate re-use of the name; the old job is either a one-off job
 		// that is pending with its runtime clearly ahead, or a periodic job with an
@@ -271,6 +286,23 @@ func sanitise(c *Case) {
 	if c.HorizonUs > 2000000 {
 		c.HorizonUs = 2000000
 	}
+	if c.Far != nil {
+		c.Dup, c.Recycle, c.Ops = nil, nil, nil
+		c.PeriodUs, c.HorizonUs = 0, 0
+	}
+	if c.Dup != nil {
+		c.Recycle, c.Ops, c.Resched, c.Mode = nil, nil, false, "M2"
+		if c.Dup.Mult < 2 {
+			c.Dup.Mult = 2
+		}
+		if c.Dup.Mult > 64 {
+			c.Dup.Mult = 64
+		}
+		c.TicksUs = []int64{30000}
+		if c.Periodic {
+			c.PeriodUs, c.HorizonUs, c.Dup.Follow = 3000, 40000, "cancel"
+		}
+	}
 	if c.Recycle != nil {
 		c.Ops, c.Resched = nil, false
 		if c.Recycle.NewOffUs < 45000 {
@@ -338,6 +370,7 @@ type obs struct {
 	stuckDump  string
 	stuckProbe string
 	rc         *recycleObs
+	sh         *shapeObs
 	// parkedAt: M2 with a runtime at least 20ms ahead: the instant at which the
 	// job goroutine was seen blocked in its select (-1: not seen).
 	parkedAt time.Duration
@@ -661,6 +694,12 @@ func callOp(s *advanced.Service, parentCancel context.CancelFunc, kind, ctxMode 
 // runRep executes the program once.  base is the goroutine count of the idle
 // process (including the canary).
 func runRep(c *Case, base int, can *canary, leaked map[string]bool, leakedSelect int) (*obs, error) {
+	if c.Far != nil {
+		return runFar(c, base, can, leaked, leakedSelect)
+	}
+	if c.Dup != nil {
+		return runDup(c, base, can, leaked, leakedSelect)
+	}
 	o := &obs{parkedAt: -1}
 	bg := context.Background()
 	svc, err := advanced.New(bg, advanced.WithLogLevel(zerolog.Disabled))
@@ -1427,7 +1466,7 @@ func setRuntime(c *Case) func() {
 }
 
 func nontrivial(c *Case) bool {
-	if c.Recycle != nil {
+	if c.Recycle != nil || c.Far != nil || c.Dup != nil {
 		return true
 	}
 	for _, op := range c.Ops {
@@ -1476,6 +1515,12 @@ func labels(c *Case) []string {
 	}
 	if c.TicksUs[0] < 0 {
 		ls = append(ls, "runtime-already-due")
+	}
+	if c.Far != nil {
+		ls = append(ls, "far-future-runtime", "far-future-runtime:"+c.Far.When, "far-future-runtime:follow-"+c.Far.Follow)
+	}
+	if c.Dup != nil {
+		ls = append(ls, "concurrent-schedule-same-name", "concurrent-schedule-same-name:follow-"+c.Dup.Follow)
 	}
 	if c.Recycle != nil {
 		ls = append(ls, "cancel-then-reschedule-same-name", "cancel-then-reschedule:follow-"+c.Recycle.Follow)
@@ -1576,9 +1621,14 @@ func check(t ev.TB, c *Case) {
 			break
 		}
 		var vs []verdict
-		if c.Periodic {
+		switch {
+		case c.Far != nil:
+			vs = judgeFar(c, o)
+		case c.Dup != nil:
+			vs = judgeDup(c, o)
+		case c.Periodic:
 			vs = judgePeriodic(c, o)
-		} else {
+		default:
 			vs = judgeOneOff(c, o)
 		}
 		vs = append(vs, judgeRecycle(c, o)...)
@@ -1589,7 +1639,9 @@ func check(t ev.TB, c *Case) {
 		if o.perturbed {
 			perturbed++
 		}
-		if _, ok := clearCancel(c, o); ok {
+		if c.Far != nil || c.Dup != nil {
+			// own judgement, no "clearly before" bookkeeping
+		} else if _, ok := clearCancel(c, o); ok {
 			clearCancels++
 		}
 		bothOutcomes[len(o.runs)]++
